@@ -321,7 +321,7 @@ def r28_functions(ctx, specs, rule='R28'):
                    'decides" shortcuts and sticky overrides make the result for one row depend on its predecessors')
     n = 0
     for q, allowed in specs:
-        fi = ctx.repo.func(q)
+        fi = q if hasattr(q, 'qualname') else ctx.repo.func(q)
         lps = loops_of(fi)
         if not lps:
             run.fail(rule, fi.where, fi.qualname, 'no loop', 'row-wise function has no loop any more')
